@@ -55,6 +55,9 @@ TABLE_SELECTOR_RE = re.compile(
     r"(\[(?P<start_col>[^\]]+)\] *: *)?"
     r"(\[(?P<end_col>.+)\] *)?$")
 
+# 'quoted sheet name'!rest, a quote inside the name is doubled
+QUOTED_SHEET_RE = re.compile(r"^('(?:[^']|'')*')!(.*)$")
+
 # pieces of a wildcard pattern: escaped (~* ~? ~~), wildcard, literal run
 WILDCARD_TOKENS_RE = re.compile(r'~[*?~]|[*?]|[^*?~]+|~')
 
@@ -125,7 +128,7 @@ class AddressMixin:
 
     @staticmethod
     def quote_sheet(sheet):
-        if ' ' in sheet:
+        if ' ' in sheet or '!' in sheet:
             sheet = quote_sheetname(sheet)
         return sheet
 
@@ -549,7 +552,15 @@ def unquote_sheetname(sheetname):
 def split_sheetname(address, sheet=''):
     sh = ''
     if '!' in address:
-        sh, address_part = address.split('!', maxsplit=1)
+        # a sheet name may hold a '!' (quoted or not), but never a ':'
+        match = QUOTED_SHEET_RE.match(address)
+        if match:
+            sh, address_part = match.groups()
+        else:
+            sh, address_part = address.rsplit('!', maxsplit=1)
+            if ':' in sh or (',' in sh and '!' in sh):
+                # more than one reference
+                sh, address_part = address.split('!', maxsplit=1)
 
         # Remove redundant sheet references and deal with inner quotes
         redundant_sheet = unquote_sheetname(sh).replace("'", "''")
